@@ -53,7 +53,7 @@ class Prop:
             "event log (operations, outcomes, eval calls)")
     probes = ["op_scalar", "op_array", "op_view_create", "op_on_view", "op_on_packed_view", "expect_indexerror_order",
               "expect_indexerror_finite", "expect_runtimeerror_cycle", "masked_result", "precached_read",
-              "dep_nested_eval", "cycle_len1", "cycle_len2", "cycle_len3", "view_of_view", "wrong_length"]
+              "dep_nested_eval", "dep_slice_eval", "npint_index", "cycle_len1", "cycle_len2", "cycle_len3", "view_of_view", "wrong_length"]
     components_real = ["pymablock.series.BlockSeries (__getitem__, views, _check_finite, _check_number_perturbations)"]
     components_stub = ["element eval callbacks (simulator-owned table with dependency edges)", "series names (token_hex counter)"]
     assumptions = ["orders < 5, at most 3 finite and 2 infinite dimensions, sizes 1-3",
@@ -82,10 +82,11 @@ class Prop:
             a = self._rand_index(r, roots[s])
             t = r.randrange(nroots)
             b = self._rand_index(r, roots[t])
+            kind = ["sl"] if r.random() < 0.3 else []
             if self._rank(roots, t, b) < self._rank(roots, s, a):
-                edges.append([s, a, t, b])
+                edges.append([s, a, t, b] + (kind if roots[t]["ninf"] else []))
             elif self._rank(roots, s, a) < self._rank(roots, t, b):
-                edges.append([t, b, s, a])
+                edges.append([t, b, s, a] + (kind if roots[s]["ninf"] else []))
         cyc = r.choice([0, 0, 0, 1, 1, 2, 3])
         if cyc:
             nodes = []
@@ -107,6 +108,8 @@ class Prop:
             make_view = ninf > 0 and r.random() < (0.5 if flavour == "views" else 0.12)
             fault = r.random() < 0.1
             item = self._rand_item(r, shape, ninf, finite_only=make_view, flavour=flavour, fault=fault)
+            if r.random() < 0.12:
+                item = [({"npi": c} if isinstance(c, int) and r.random() < 0.6 else c) for c in item]
             ops.append(["idx", list(tgt), item, len(ops)])
             if make_view and nviews < 6:
                 try:
@@ -202,10 +205,19 @@ class Prop:
             counters[k] = counters.get(k, 0) + n
 
         # --- model
-        edges = {}
-        for s, a, t, b in case["edges"]:
+        edges = {}  # node -> dependencies in the model (expanded)
+        requests = {}  # node -> what the eval really asks for
+        for e in case["edges"]:
+            s, a, t, b = e[:4]
             if s < nroots and t < nroots and self._valid(roots_spec, s, a) and self._valid(roots_spec, t, b):
-                edges.setdefault((s, tuple(a)), []).append((t, tuple(b)))
+                if len(e) > 4 and roots_spec[t]["ninf"]:
+                    # the eval asks for a slice over the last order: all lower orders of the same block
+                    deps = [(t, tuple(b[:-1]) + (m,)) for m in range(b[-1] + 1)]
+                    requests.setdefault((s, tuple(a)), []).append((t, tuple(b[:-1]) + (slice(0, b[-1] + 1),)))
+                else:
+                    deps = [(t, tuple(b))]
+                    requests.setdefault((s, tuple(a)), []).append((t, tuple(b)))
+                edges.setdefault((s, tuple(a)), []).extend(deps)
         values = []  # per root: dict index -> Tag | zero
         ids = []  # per root: int array of element ids
         flat = []  # id -> (root, index)
@@ -249,11 +261,9 @@ class Prop:
                     rest.append(n)
             pending_nodes = rest
         bad_ids = {k for k, node in enumerate(flat) if node not in good}
-        if case["edges"]:
-            for s, a, t, b in case["edges"]:
-                pass
         # cycle-length probes
-        for s, a, t, b in case["edges"]:
+        for e in case["edges"]:
+            s, a, t, b = e[:4]
             if (s, tuple(a)) == (t, tuple(b)):
                 bump("cycle_len1")
         ncyc = len(bad_ids)
@@ -269,8 +279,10 @@ class Prop:
                 index = tuple(int(i) for i in index)
                 calls[(s, index)] = calls.get((s, index), 0) + 1
                 events.append(("eval", s, index))
-                for t, b in edges.get((s, index), ()):
+                for t, b in requests.get((s, index), ()):
                     bump("dep_nested_eval")
+                    if isinstance(b[-1], slice):
+                        bump("dep_slice_eval")
                     real_roots[t][b]
                 return values[s][index]
 
@@ -301,6 +313,8 @@ class Prop:
                 continue
             series, D, nfin, ninf, kind, packed_anc = targets[tgt]
             item = _item_to_py(item_spec)
+            if any(isinstance(c, np.integer) for c in item):
+                bump("npint_index")
             calls_before = dict(calls)
             cached_before = {id(x): set(x._data) for x in all_series}
             # ---------------- prediction
@@ -434,7 +448,7 @@ class Prop:
                         fail("pending-left", f"{desc}: in-flight marker left in {x.name}[{k}]")
 
         # cycle length probes (2, 3) – structural, from the edge list
-        es = {((s, tuple(a)), (t, tuple(b))) for s, a, t, b in case["edges"]}
+        es = {((e[0], tuple(e[1])), (e[2], tuple(e[3]))) for e in case["edges"]}
         for (u, v) in es:
             if u != v and (v, u) in es:
                 bump("cycle_len2")
